@@ -222,6 +222,9 @@ def hint_level(ctx, mode):
         raise Infra("GadgetTiny F_47 sample has %d accepted / %d rejected tuples" % (len(acc), len(rej)))
     r = rng(ctx, "hints47")
     r.shuffle(rej)
+    # consistent batches for the leaf that idx + P (a second boolean decomposition of the index) addresses come first: they are few and are
+    # exactly what a circuit with a non-unique index decomposition accepts
+    rej.sort(key=lambda i: 0 if (i["t"].get("cls") == "alias" and i["t"].get("consistent")) else 1)
     nrej = (24 if mode == "deletion" else 120) if ctx.quick else (len(rej) if mode == "insertion" else 160)
     chosen = acc + rej[:nrej]
     jobs = [dict(kind=mode, depth=1, allInv=(not ctx.quick), items=chosen[i::12]) for i in range(12) if chosen[i::12]]
